@@ -867,7 +867,8 @@ Proof. cbv zeta. split; [vm_compute; reflexivity|]. split; [vm_compute; reflexiv
                            checks/c03_grid.py (family grid_statevector: the real class driven with Gaussian-integer token matrices, directly
                            filled grids and grids built through the real apply / I / CNOT / ECR, result vector resp. exception class);
        column grid c = entry c of every row;  columns depth grid = [column 0; ...; column (depth-1)];
-       grid_product cols = ft.reduce(np.kron, column) per column, `@` from the left (IndexError when there is no column or no row);
+       grid_product cols = ft.reduce(np.kron, column) per column, `@` from the left (IndexError when there is no column or no row; TypeError
+                           for scalar @ scalar: nothing written in the first two columns);
        grid_statevector_cols n cols psi = grid_product, then `@ psi0` for psi0 on n qubits (ValueError when the product is not 2^n x 2^n, in
                            particular when it is the 0-dimensional kron of placeholders only);  grid_statevector n depth grid = on the fields;
      Proofs/GridBackendSpec.v, GridBuilder.v, SimLoopGrid.v, SimLoopGridC.v.
@@ -898,11 +899,12 @@ Proof. exact grid_follows_layered. Qed.
 Print Assumptions C03_grid_follows_layered.
 
 (* (ii) Circuit.statevector IS StandardBackend.statevector on the columns: on a non-empty rectangular column list with at least one row the
-   two models return the same vector or the same exception *)
+   two models return the same vector or the same exception (scalar_col c0: the first column is untouched, placeholders only
+   -- its kron is a scalar, and scalar @ scalar is a TypeError in the grid model; StandardBackend's model has no such clause) *)
 Theorem C03_grid_statevector_is_std :
   forall (T : Type) (rI : T) (radd rmul : T -> T -> T) (n : nat) (c0 : list (Backends.entry T)) (rest : list (list (Backends.entry T)))
          (psi : state T),
-  (1 <= n)%nat -> c0 <> nil -> Forall (fun c => List.length c = List.length c0) rest ->
+  (1 <= n)%nat -> c0 <> nil -> scalar_col T c0 = false -> Forall (fun c => List.length c = List.length c0) rest ->
   grid_statevector_cols T rI radd rmul n (c0 :: rest) psi
   = match std T rI radd rmul n (c0 :: rest) psi with Ok (OutVec s) => Ok s | Ok OutEye => Err IndexError | Err e => Err e end.
 Proof. exact grid_is_std. Qed.
@@ -1029,6 +1031,7 @@ Theorem C03_end_to_end_grid_vocabulary :
          (fun p => if Nat.ltb 0 (fst p) && Nat.eqb (fst p) n then Ok (memoT n (mv T radd rmul n (snd p) psi)) else Err ValueError)) /\
   (forall (T : Type) (rI : T) (radd rmul : T -> T -> T) n depth grid psi,
      grid_statevector T rI radd rmul n depth grid psi = grid_statevector_cols T rI radd rmul n (columns T depth grid) psi) /\
+  (forall (T : Type) (c : list (Backends.entry T)), scalar_col T c = forallb (isOne T) c) /\
   (forall (T : Type) (rO rI : T) (radd rmul : T -> T -> T) (ropp : T -> T) (A D : Type) (K : consts T A) (ph : A -> Z * Z) (V : Type) (born : T -> V)
           theta dur data psi0 f,
      nf_perform_grid T rO rI radd rmul ropp A D K ph V born theta dur data psi0 f
